@@ -45,6 +45,16 @@ def run(ctx):
     ctx.count("stores_into_copies", len(to_copy))
     ctx.count("calls_resolved", it.resolved_calls)
     ctx.count("calls_unresolved", it.unresolved_calls)
+    # the copy of the net made by get_equivalent shares the list objects stored in object cells (net.group.element_index): mutating such
+    # a cell in place reaches the caller's net although every table was copied
+    from rules import C27, _lints
+    C27.rule_group_cells(ctx)
+    RD = "DISCARDED"
+    ctx.rule(RD, "in pandapower.grid_equivalents every row/column-removing pandas call on a net table is in place or assigned: a discarded "
+                 "`net[elm].drop(...)` leaves the internal branch in the equivalent, which then contains it twice")
+    fis = [f for mn in ctx.repo.module_names() if mn.startswith("pandapower.grid_equivalents") for f in ctx.repo.module(mn).functions.values()]
+    if _lints.discarded_results(ctx, RD, fis) < 1:
+        ctx.fail("DISCARDED: no table-modifying expression statements found in pandapower.grid_equivalents")
     R2 = "COPY-FIRST"
     ctx.rule(R2, "get_equivalent rebinds net to deepcopy(net) before any statement that can write it")
     pos_copy = None
@@ -76,6 +86,8 @@ def variants(repo):
     p = "pandapower/grid_equivalents/get_equivalent.py"
     V = Variant
     return [
+        V("internal impedances not dropped", "pandapower/grid_equivalents/auxiliary.py", replace_once("                net[elm] = net[elm].drop(idx_to_drop)", "                net[elm].drop(idx_to_drop)"), "DISCARDED"),
+        V("group member list extended in place", "pandapower/groups.py", in_function("attach_to_group", lambda s: s.replace("            prev_elm = [prev_elm] if isinstance(prev_elm, str) or not hasattr(\n                prev_elm, \"__iter__\") else list(prev_elm)\n", "            if isinstance(prev_elm, str) or not hasattr(prev_elm, \"__iter__\"):\n                prev_elm = [prev_elm]\n            prev_elm += list(pd.Index(elm).difference(pd.Index(prev_elm)))\n", 1)), "GROUP-CELL-ALIAS"),
         V("copy removed", p, in_function("get_equivalent", replace_once("    net = deepcopy(net)\n", "    net = net\n")), "EFFECT-ORIGINAL"),
         V("shallow copy", p, in_function("get_equivalent", replace_once("    net = deepcopy(net)\n", "    net_orig = net\n    net = deepcopy(net)\n    net_orig.bus['zone'] = 'ext'\n")), "EFFECT-ORIGINAL"),
     ]
